@@ -54,6 +54,7 @@ def run(P, rep, tier):
     rep.attempt(r3_supports_direction, P, rep, ctx)
     rep.attempt(r4_query_scope, P, rep, ctx)
     rep.attempt(r5_fresh_view, P, rep, ctx)
+    rep.attempt(r6_children_index, P, rep, ctx)
     rep.floor("C07.R1", 5)
     rep.floor("C07.R2", 7)
     rep.floor("C07.R3", 3)
@@ -243,6 +244,29 @@ def r4_query_scope(P, rep, ctx):
     dr = [n.idx for n in g.nodes if any(call_attr(c) == "_del_raw" for c in g.calls(n.idx))]
     ok = bool(tests) and bool(dr) and all(g.exit not in g.reach([b for b, l in g.succ[t.idx] if l == "T"]) for t in tests) and all(g.every_path_passes([t.idx for t in tests], d) for d in dr)
     rep.check(ok, "C07.R4", dl.qual, "deleting a missing object raises KeyError before anything is removed", dl.loc(), construct="__delitem__ existence", message="__delitem__ does not raise KeyError for a missing object before deleting")
+
+
+def r6_children_index(P, rep, ctx):
+    """Queries for a parent schema find child-schema objects through TOCSchemas._children: every registration must record
+    the schema under *each* of its parents, whether or not the parent's entry already exists."""
+    fi = P.func(f"{I}.TOCSchemas._update_parents_children")
+    g = ctx.cfg(fi)
+    loops = [n for n in g.nodes if n.kind == "for" and norm(n.stmt.iter) == "enumerate(parents)"]
+    tests = [t.idx for t in g.nodes if t.kind == "test" and norm(t.exprs[0]) == "parent != schema_ref"]
+    adds = [n.idx for n in g.nodes if n.kind == "stmt" and norm(n.stmt) == "self._children[parent].add(schema_ref)"]
+    ok = len(loops) == 1 and bool(tests) and bool(adds) and g.every_path_passes(tests, loops[0].idx, src=loops[0].idx, src_label="iter") and all(g.every_path_passes(adds, loops[0].idx, src=t, src_label="T") for t in tests)
+    rep.check(ok, "C07.R6", fi.qual, "on every registration the schema is recorded as child of each of its parents (independent of whether the parent entry existed)", fi.loc(), construct="children index update per parent",
+              message="_update_parents_children records a schema under a parent only on some iterations (e.g. only when the parent's entry is created): objects of a child schema registered after its parent are not found by queries for the parent schema")
+    init = [n.idx for n in g.nodes if n.kind == "stmt" and norm(n.stmt) == "self._children[parent] = set()"]
+    it = [t.idx for t in g.nodes if t.kind == "test" and norm(t.exprs[0]) == "parent not in self._children"]
+    rep.check(bool(init) and bool(it) and all(any(g.edge_dominates(t, "T", i) for t in it) for i in init), "C07.R6", fi.qual, "a parent's child set is created only when absent", fi.loc(), construct="children init", message="the child set of a parent is re-initialised although present")
+    ch = P.func(f"{I}.TOCSchemas.children")
+    rep.check("map(self._children.get, s_refs)" in norm(ch.node), "C07.R6", ch.qual, "children() reads the same index", ch.loc(), construct="children()", message="TOCSchemas.children does not read _children")
+    # explicit start node wins over the accessor's default (query scope)
+    q = P.func("container.wrappers.WithDefaultQueryStartNode.query")
+    d = [norm(v) for k, v in local_defs(q).get("node", []) if v is not None]
+    rep.check(d in (["node or self._self_query_start_node"], ["self._self_query_start_node if node is None else node"]), "C07.R6", q.qual, "an explicitly passed start node takes precedence over the accessor's own node", q.loc(), construct=f"node = {d}",
+              message=f"node-level query computes its start node as {d}: an explicitly requested start node is ignored and results come from the wrong subtree")
 
 
 def r5_fresh_view(P, rep, ctx):
